@@ -14,7 +14,8 @@
     `Err(the raised flags)` (C04's clause for the trait form; seeded change C04-4 lived here);
   * `from_ref_eq` — `From<&str>`: the value, nearest-even, flags dropped;
   * `nan_empty`, `nan_nonempty` — exactly which bits `d128::nan(tag)` takes from the parsed tag;
-  * `text_total` — C15 for the six wrappers: if `cs` returns normally, so does each of them;
+  * `text_total` — C15 for the wrappers (five conjuncts: `bid128_from_string`, `convert_from_decimal_character`, `from_str`,
+    `From<&str>`, `d128::nan`, the last through `bid128_nan`): if `cs` returns normally, so does each of them;
   * `display_eq`, `debug_eq`, `upperexp_eq`, `lowerexp_eq` — the four formatter impls over the formatter `ts` as a parameter.
   The tie of `cs` itself to the compiled code is the H level of C04 (`DecModel/Scan.lean`, `ScanNum.lean`, `corr scanner-model`);
   `judgehk` runs this translated glue over that model on every observed text call (`corr translated-code`).
